@@ -498,3 +498,9 @@ def unit_test(case):
         f"print(parse_single_name_into_parts({case['name']!r}))\n"
         "# expected parts are stored under witness.expected in this file\n"
     )
+
+
+def ENV_SHARDS(tier):
+    """The broad, cheap families: run again in a fresh interpreter per environment (engine.run_environments)."""
+    return [s for s in shards('quick') if s[0] in ("mw", "leak") or (s[0] == "seq" and s[1][0] <= 2)]
+
